@@ -443,6 +443,44 @@ pub fn run(ctx: &'static Ctx) -> (&'static str, Value, Vec<&'static str>) {
             st
         })
         .reduce(Stats::new, Stats::merge);
+    // history: scan() of different volumes back to back on one fresh thread (large, failing,
+    // empty, tiny) must give each volume's history-free result
+    let hv: Vec<Case> = vec![
+        Case { runs: vec![(1, 40), (2, 45)], splits: vec![], meta: None, moments: 3, gates: 1840, vol: 0, level: 1 },
+        Case { runs: vec![(1, 2), (2, 1)], splits: vec![1], meta: Some((0, 1)), moments: 1, gates: 4, vol: 0, level: 9 },
+        Case { runs: vec![(4, 3)], splits: vec![], meta: None, moments: 2, gates: 257, vol: 3, level: 9 },
+        Case { runs: vec![], splits: vec![], meta: None, moments: 0, gates: 0, vol: 0, level: 9 },
+        Case { runs: vec![(1, 2), (2, 2), (1, 2), (3, 2)], splits: vec![2, 4, 6], meta: Some((1, 0)), moments: 4, gates: 300, vol: 2, level: 9 },
+    ];
+    let hbytes: Vec<Vec<u8>> = hv.iter().map(|c| build(c).0).collect();
+    let sh = history_check(
+        ctx,
+        "file_scan",
+        hv.len(),
+        3,
+        |i| {
+            let f = nexrad_data::volume::File::new(hbytes[i].clone());
+            let r = guarded(|| {
+                f.scan()
+                    .map(|s| {
+                        let mut h: u64 = 0xcbf29ce484222325;
+                        for w in s.sweeps() {
+                            for r in w.radials() {
+                                for m in [r.reflectivity(), r.velocity(), r.spectrum_width(), r.differential_reflectivity(), r.differential_phase(), r.correlation_coefficient(), r.specific_differential_phase()] {
+                                    h = h.wrapping_mul(0x100000001b3) ^ fnv64(format!("{:?}", m.map(|x| x.values())).as_bytes());
+                                }
+                                h = h.wrapping_mul(0x100000001b3) ^ r.collection_timestamp() as u64;
+                            }
+                        }
+                        (s.coverage_pattern_number(), s.sweeps().iter().map(|w| (w.elevation_number(), w.radials().len())).collect::<Vec<_>>(), h)
+                    })
+                    .map_err(|e| format!("{:?}", e))
+            });
+            format!("{:?}", r)
+        },
+        |i| format!("volume#{i}"),
+    );
+    let stats = stats.merge(sh);
     let cov = stats.coverage(
         "volumes built by the reference encoder: every elevation word over {1,2,3} up to length 5 (thorough 7) x run-length patterns x EVERY partition of the message stream into bzip2 records (streams <= 8 messages; 4 strategies above), special sequences (255, 0, SAILS 1,2,1,3, 1..=255 ascending), a status/VCP/type-15/type-18 frame inserted at every position, moment subsets {none, REF, REF+VEL+SW, all 7 with 16-bit PHI} x gates {0,1,4,1840} x 5 VOL placements, 2,520-radial realistic volume. Oracle = encoder's radial list (identity by unique timestamp, values via reference conversion). non-trivial = >=2 elevation runs and >=2 records",
         true,
@@ -456,6 +494,10 @@ pub fn run(ctx: &'static Ctx) -> (&'static str, Value, Vec<&'static str>) {
 }
 
 pub fn replay(ctx: &'static Ctx, case: &Value) {
+    if case["op"].as_str() == Some("history") {
+        let _ = run(ctx);
+        return;
+    }
     let c = Case::from_json(case);
     let o = check_case(ctx, &c);
     println!("replay C01 {:?} -> {o}", c);
